@@ -15,7 +15,7 @@ import itertools
 
 import numpy as np
 
-from pyvc.sym import And, Or, Not, deep_eq, Sym, has_sym
+from pyvc.sym import And, Or, Not, deep_eq, Sym, has_sym, SCx
 from contracts.c13 import BackendProxy
 
 FUNCTIONS = [
@@ -50,22 +50,24 @@ def ops_of(family):
     return ops
 
 
-def symbolise(V, psi, stem):
-    """ replace all entries of the site tensors (and the norm factor) of a real MPS/MPO by symbolic reals """
+def symbolise(V, psi, stem, cplx=False):
+    """ replace all entries of the site tensors (and the norm factor) of a real MPS/MPO by symbolic reals (cplx: re + i*im) """
     for n in range(psi.N):
         a = psi.A[n]
         if V.symbolic:
             data = np.empty(a.size, dtype=object)
             for i in range(a.size):
-                data[i] = V.real(f"{stem}{n}_{i}")
+                data[i] = SCx(V.real(f"{stem}{n}_{i}"), V.real(f"{stem}{n}_{i}i")) if cplx else V.real(f"{stem}{n}_{i}")
             psi.A[n] = a._replace(config=a.config._replace(backend=BackendProxy()), data=data)
+        elif cplx:
+            psi.A[n] = a._replace(data=np.array([complex(float(V.real(f"{stem}{n}_{i}")), float(V.real(f"{stem}{n}_{i}i"))) for i in range(a.size)], dtype=np.complex128))
         else:
             psi.A[n] = a._replace(data=np.array([float(V.real(f"{stem}{n}_{i}")) for i in range(a.size)], dtype=np.float64))
     psi.factor = V.real(f"{stem}_factor")
     return psi
 
 
-def make_state(V, family, N, stem, seed, charge=None):
+def make_state(V, family, N, stem, seed, charge=None, cplx=False):
     import yastn.tn.mps as mps
     cls, sym, Dpsi, Dop, n = FAMILIES[family]
     ops = ops_of(family)
@@ -73,17 +75,17 @@ def make_state(V, family, N, stem, seed, charge=None):
     I = mps.product_mpo(ops.I(), N)
     n = n if charge is None else charge
     psi = mps.random_mps(I, n=n, D_total=Dpsi) if n is not None else mps.random_mps(I, D_total=Dpsi)
-    return symbolise(V, psi, stem)
+    return symbolise(V, psi, stem, cplx)
 
 
-def make_mpo(V, family, N, stem, seed):
+def make_mpo(V, family, N, stem, seed, cplx=False):
     import yastn.tn.mps as mps
     cls, sym, Dpsi, Dop, n = FAMILIES[family]
     ops = ops_of(family)
     ops.random_seed(seed)
     I = mps.product_mpo(ops.I(), N)
     H = mps.random_mpo(I, D_total=Dop)
-    return symbolise(V, H, stem)
+    return symbolise(V, H, stem, cplx)
 
 
 # ---------------------------------------------------------------------------------------------------------------------
@@ -298,6 +300,48 @@ def h_env3_values(V, family, N, seed, precompute):
         V.check_equal(f'<BB|Heff2(AA)>*factors=<bra|H|ket>', [fb * fk * V.call(yastn.vdot, BB, HAA)], [want])
 
 
+def cj(X):
+    return np.vectorize(lambda z: z.conjugate() if hasattr(z, 'conjugate') else z, otypes=[object])(np.asarray(X, dtype=object))
+
+
+def h_complex_values(V, family, N, seed):
+    """ complex tensors: the bra enters conjugated, conj / transpose / conjugate_transpose of MPS and MPO are the dense operations """
+    import yastn.tn.mps as mps
+    psi = make_state(V, family, N, 'a', seed, cplx=True)
+    phi = make_state(V, family, N, 'b', seed + 1, cplx=True)
+    H = make_mpo(V, family, N, 'h', seed + 2, cplx=True)
+    sp = ops_of(family).space()
+    vp, vq, Hm = dense_state(V, psi, sp), dense_state(V, phi, sp), dense_mpo(V, H, sp)
+    ov = (cj(vq) * vp).sum()
+    V.check('oracle-depends-on-the-data', (not V.symbolic) or isinstance(ov, SCx))
+    V.check_equal('measure_overlap=<phi|psi>-with-the-bra-conjugated', [V.call(mps.measure_overlap, phi, psi)], [ov])
+    V.check_equal('measure_mpo=<phi|H|psi>', [V.call(mps.measure_mpo, phi, H, psi)], [cj(vq) @ (Hm @ vp)])
+    V.check_equal('H@psi', dense_state(V, V.call(mps.multiply, H, psi), sp).tolist(), (Hm @ vp).tolist())
+    V.check_equal('conj(psi)', dense_state(V, V.call(psi.conj), sp.conj()).tolist(), cj(vp).tolist())
+    V.check_equal('H.conj()', dense_mpo(V, V.call(H.conj), sp.conj()).ravel().tolist(), cj(Hm).ravel().tolist())
+    V.check_equal('H.transpose()', dense_mpo(V, V.call(H.transpose), sp.conj()).ravel().tolist(), Hm.T.ravel().tolist())
+    V.check_equal('H.conjugate_transpose()', dense_mpo(V, V.call(H.conjugate_transpose), sp).ravel().tolist(), cj(Hm).T.ravel().tolist())
+    z = SCx(V.real('zr'), V.real('zi'))
+    s = V.call(mps.add, psi, phi, amplitudes=[z, 2])
+    V.check_equal('add(complex-amplitude)', dense_state(V, s, sp).tolist(), np.vectorize(lambda p, q: z * p + 2 * q, otypes=[object])(vp, vq).tolist())
+    V.check_equal('measure_mpo(sum-with-the-same-MPO-twice)', [V.call(mps.measure_mpo, phi, [H, H], psi)], [2 * (cj(vq) @ (Hm @ vp))])
+
+
+def h_reverse_values(V, family, N, seed):
+    """ reverse_sites: site n <-> N-1-n of the dense state / operator """
+    import yastn.tn.mps as mps
+    psi = make_state(V, family, N, 'a', seed)
+    H = make_mpo(V, family, N, 'h', seed + 2)
+    sp = ops_of(family).space()
+    d = sum(sp.D)
+    vp, Hm = dense_state(V, psi, sp), dense_mpo(V, H, sp)
+    r = V.call(psi.reverse_sites)
+    V.check_equal('reverse_sites(psi)', dense_state(V, r, sp).tolist(), vp.reshape((d,) * N).transpose(tuple(range(N - 1, -1, -1))).reshape(-1).tolist())
+    rH = V.call(H.reverse_sites)
+    want = Hm.reshape((d,) * (2 * N)).transpose(tuple(range(N - 1, -1, -1)) + tuple(range(2 * N - 1, N - 1, -1))).reshape(d ** N, d ** N)
+    V.check_equal('reverse_sites(H)', dense_mpo(V, rH, sp).ravel().tolist(), want.ravel().tolist())
+
+
 def h_env3_refresh(V, family, N, seed, precompute, site, to):
     """
     environment freshness as the sweeps of dmrg_/tdvp_ rely on it: after site tensors change, clear_site_ + update_env_ along the
@@ -429,6 +473,10 @@ def units(tier, which):
                 if which == 'C06':
                     U.append(('h_overlap_values', lab, p))
                     U.append(('h_mpo_values', lab, p))
+                    if (family in ('spin-Z2', 'fermion-U1') and N <= 3) or (family == 'spin-dense' and N <= 2):
+                        U.append(('h_complex_values', lab, p))
+                    if family in ('spin-Z2', 'fermion-U1'):
+                        U.append(('h_reverse_values', lab, p))
                 if which in ('C06', 'C09'):
                     for pc in (False, True):
                         U.append(('h_env3_values', f"{lab},precompute={pc}", dict(p, precompute=pc)))
